@@ -26,7 +26,15 @@ func verifSub(site string, s *Subscription) {
 		site = "populate.deleted"
 	}
 	if site == "dispose" {
-		if s.state == stateDisposed || (len(s.readyCallbacks) == 0 && len(s.accessCallbacks) == 0) {
+		if s.state == stateDisposed {
+			return
+		}
+		for _, ev := range s.eventQueue {
+			if ev.Event == "delete" {
+				verifhook.AddNote("sub.disposeQueuedDelete", s.c.CID()+" "+s.rid)
+			}
+		}
+		if len(s.readyCallbacks) == 0 && len(s.accessCallbacks) == 0 {
 			return
 		}
 		site = "sub.disposePending"
